@@ -16,15 +16,18 @@
 #include <stdint.h>
 #include <sys/syscall.h>
 #include <sys/types.h>
+#include <time.h>
 
 static __thread uint64_t detrand_state = 0x9E3779B97F4A7C15ULL;
 static __thread uint64_t detrand_calls = 0;
+static __thread int detrand_sim_mode = 0;
 static __thread uint64_t detrand_bytes = 0;
 
 void detrand_reseed(uint64_t seed) {
     detrand_state = seed ^ 0xD1B54A32D192ED03ULL;
     detrand_calls = 0;
     detrand_bytes = 0;
+    detrand_sim_mode = 1;
 }
 
 uint64_t detrand_call_count(void) { return detrand_calls; }
@@ -65,6 +68,42 @@ int getentropy(void *buf, size_t n) {
     return 0;
 }
 
+static long raw_syscall6(long nr, long a1, long a2, long a3, long a4, long a5, long a6) {
+    long ret;
+#if defined(__x86_64__)
+    register long r10 __asm__("r10") = a4;
+    register long r8 __asm__("r8") = a5;
+    register long r9 __asm__("r9") = a6;
+    __asm__ volatile("syscall"
+                     : "=a"(ret)
+                     : "a"(nr), "D"(a1), "S"(a2), "d"(a3), "r"(r10), "r"(r8), "r"(r9)
+                     : "rcx", "r11", "memory");
+#else
+#error "entropy seam: unsupported architecture"
+#endif
+    return ret;
+}
+
+/* Wall-clock seam. Once a thread has been reseeded for a simulation run, CLOCK_REALTIME is frozen
+ * for it: rustls stamps session tickets with the wall clock and puts the (obfuscated) ticket age
+ * into the ClientHello of a resumed handshake, so a run that happened to take more than a real
+ * second under load produced different handshake bytes, different ECDSA signature lengths and a
+ * different packetisation. The monotonic clocks are passed through (tokio's virtual clock and the
+ * supervisor's wall-time measurements use those). */
+int clock_gettime(clockid_t clk, struct timespec *ts) {
+    if (detrand_sim_mode && clk == CLOCK_REALTIME) {
+        ts->tv_sec = 1767225600; /* 2026-01-01T00:00:00Z */
+        ts->tv_nsec = 0;
+        return 0;
+    }
+    long ret = raw_syscall6(SYS_clock_gettime, (long)clk, (long)ts, 0, 0, 0, 0);
+    if (ret < 0 && ret > -4096) {
+        errno = (int)-ret;
+        return -1;
+    }
+    return 0;
+}
+
 long syscall(long nr, ...) {
     va_list ap;
     va_start(ap, nr);
@@ -79,18 +118,7 @@ long syscall(long nr, ...) {
         detrand_fill((void *)a1, (size_t)a2);
         return a2;
     }
-    long ret;
-#if defined(__x86_64__)
-    register long r10 __asm__("r10") = a4;
-    register long r8 __asm__("r8") = a5;
-    register long r9 __asm__("r9") = a6;
-    __asm__ volatile("syscall"
-                     : "=a"(ret)
-                     : "a"(nr), "D"(a1), "S"(a2), "d"(a3), "r"(r10), "r"(r8), "r"(r9)
-                     : "rcx", "r11", "memory");
-#else
-#error "entropy seam: unsupported architecture"
-#endif
+    long ret = raw_syscall6(nr, a1, a2, a3, a4, a5, a6);
     if (ret < 0 && ret > -4096) {
         errno = (int)-ret;
         return -1;
